@@ -49,4 +49,292 @@ def plan_C02(tier):
     return qs, info
 
 
-PLANS = {"C02": plan_C02}
+FN_NAMES = {0: "init", 1: "next", 2: "next_ensure", 3: "go_into_object", 4: "leave_object", 5: "go_into_array",
+            6: "leave_array", 7: "field", 8: "field_with_length", 9: "field_ensure", 10: "field_ensure_with_length",
+            11: "get_raw", 12: "parser_to_writer", 13: "reset", 14: "verify", 15: "getters"}
+# how many inlined copies of the token loop a function has / whether it has the lookup outer loop
+FN_COST = {0: 0, 1: 1, 2: 1, 3: 1, 4: 1, 5: 1, 6: 1, 7: 1, 8: 1, 9: 1, 10: 1, 11: 4, 12: 4, 13: 0, 14: 1, 15: 0}
+
+
+def step_query(propset, fn, n, D, checks="mem", timeout=1200, arch=None, extra=None, witness=True):
+    name = "step.p%d.%s.n%d.D%d%s" % (propset, FN_NAMES[fn], n, D, ("." + arch) if arch else "")
+    lookup = fn in (7, 8, 9, 10)
+    uw = {"_advance_parsing.0": adv(n), "_parse_integer.0": 9, "memcmp.0": n + 2, "strlen.0": 6,
+          "binson_parser_field_with_length.0": n // 2 + 2}
+    defs = {"NB": n, "DEPTH": D, "FN": fn, "PROPSET": propset}
+    defs.update(extra or {})
+    copies = max(FN_COST[fn], 1) * (3 if lookup else 1)
+    srcs = ("parser", "writer") if fn == 12 else ("parser",)
+    return Query(name, "h_step.c", defines=defs, sources=srcs, unwindset=uw, unwind=max(n + 3, 10), checks=checks,
+                 arch=arch, timeout=timeout, mem_gb=1.0 + 0.3 * n * copies * (1 if FN_COST[fn] else 0.1),
+                 tags={"n": n, "D": D, "fn": FN_NAMES[fn], "family": "H-BASE" if fn == 0 else "H-STEP", "inductive": fn != 0},
+                 witness=witness, group="h_step.%s" % FN_NAMES[fn])
+
+
+def plan_C01(tier):
+    qs = []
+    if tier == "quick":
+        base_ns, Ds = range(0, 7), (1, 2)
+        single_ns, heavy_ns = (6,), (4,)
+    else:
+        base_ns, Ds = range(0, 13), (1, 2, 3)
+        single_ns, heavy_ns = (4, 8, 12), (4, 8)
+    for n in base_ns:
+        for D in Ds:
+            qs.append(step_query(1, 0, n, D))
+            for rej in ((1,) if n < 2 else (1, 2)):
+                q = step_query(1, 0, n, D, extra={"REJ": rej})
+                q.name += ".rej%d" % rej
+                q.array_fs = True
+                qs.append(q)
+    for fn in range(1, 16):
+        heavy = fn in (7, 8, 9, 10, 11, 12)
+        for n in (heavy_ns if heavy else single_ns):
+            for D in Ds if tier != "quick" else (2,):
+                if FN_COST[fn] == 0 and n != (heavy_ns if heavy else single_ns)[0]:
+                    continue
+                qs.append(step_query(1, fn, n, D))
+    info = {
+        "rule": "H-BASE: one query per (n, D): garbage struct + garbage state array -> init_object|init_array => Inv. "
+                "H-STEP: one query per (public function, n, D): arbitrary state satisfying Inv + one call with arbitrary "
+                "arguments => no memory-check failure, Inv again, spans inside the buffer, buffer unchanged.",
+        "bounds": {"base_n": [min(base_ns), max(base_ns)], "step_n": list(single_ns), "step_n_heavy": list(heavy_ns), "D": list(Ds)},
+        "outside": ["buffers longer than the listed n", "D > %d" % max(Ds)],
+        "assumptions": ["Inv (DESIGN 4.2) describes a superset of the reachable parser states",
+                        "lookups are issued only while positioned inside an object (documented precondition)",
+                        "pointer arguments are valid (non-NULL, NUL-terminated where the API takes a C string)"],
+    }
+    return qs, info
+
+
+OPS = {"GO": 1, "GA": 2, "N": 3, "LO": 4, "LA": 5, "RAW": 6, "F": 7, "TW": 8, "FS": 9, "FE": 10, "NE": 11}
+
+
+def gen_scripts(root, K, alphabet=("GO", "GA", "N", "LO", "LA", "RAW", "F"), maximal_only=True):
+    """all stack-consistent scripts of length <= K: the first op enters the root; GO/GA/RAW/TW only directly
+    after N/F/FS/FE/NE; LO/LA match the innermost entered kind; nothing after the root was left.
+    Returned: scripts of length exactly K plus shorter ones that end by leaving the root."""
+    out = []
+    first = "GO" if root == 1 else "GA"
+
+    def rec(seq, stack, after_item):
+        if not stack:                      # root left: complete
+            out.append(list(seq))
+            return
+        if len(seq) == K:
+            out.append(list(seq))
+            return
+        for op in alphabet:
+            if op in ("GO", "GA"):
+                if not after_item:
+                    continue
+                rec(seq + [op], stack + ["O" if op == "GO" else "A"], False)
+            elif op in ("RAW", "TW"):
+                if not after_item:
+                    continue
+                rec(seq + [op], stack, False)
+            elif op in ("N", "NE"):
+                rec(seq + [op], stack, True)
+            elif op in ("F", "FS", "FE"):
+                if stack[-1] != "O":
+                    continue
+                rec(seq + [op], stack, True)
+            elif op == "LO":
+                if stack[-1] != "O":
+                    continue
+                rec(seq + [op], stack[:-1], False)
+            elif op == "LA":
+                if stack[-1] != "A":
+                    continue
+                rec(seq + [op], stack[:-1], False)
+    rec([first], ["O" if root == 1 else "A"], False)
+    return out
+
+
+def script_min_bytes(script, root):
+    """smallest valid document for which every op of the script is protocol-following"""
+    total = 2
+    stack = ["O" if root == 1 else "A"]
+    for i, op in enumerate(script):
+        nxt = script[i + 1] if i + 1 < len(script) else None
+        if op in ("N", "F", "FS", "FE", "NE") and stack:
+            need = {"GO": 2, "GA": 2, "RAW": 1, "TW": 1}.get(nxt)
+            if need:
+                total += need + (2 if stack[-1] == "O" else 0)
+        if op in ("GO", "GA") and i > 0:
+            stack.append("O" if op == "GO" else "A")
+        if op in ("LO", "LA") and stack:
+            stack.pop()
+    return total
+
+
+def script_feasible(script, n, root):
+    m = script_min_bytes(script, root)
+    if n < m:
+        return False
+    if root == 1 and n in (3, 4):
+        return False
+    return True
+
+
+def script_query(propset, script, n, D, root, mode=1, J=None, checks="func", timeout=1500, extra=None, witness=True,
+                 arch=None):
+    ops = [OPS[o] for o in script]
+    full = J is None
+    j = adv(n) if full else J
+    name = "script.p%d.m%d.%s.n%d.D%d.%s%s" % (propset, mode, "-".join(script), n, D, "obj" if root == 1 else "arr",
+                                               "" if full else ".J%d" % J)
+    if arch:
+        name += "." + arch
+    nloops = sum({"RAW": 2, "TW": 2, "F": 2, "FS": 2, "FE": 2}.get(o, 1) for o in script)
+    uw = {"_advance_parsing.0": j, "_parse_integer.0": 9, "memcmp.0": n + 2, "strlen.0": 5,
+          "binson_parser_field_with_length.0": (n // 2 + 2) if full else min(J, n // 2 + 2)}
+    defs = {"NB": n, "DEPTH": D, "ROOT": root, "MODE": mode, "PROPSET": propset,
+            "SCRIPT_OPS": ",".join(str(o) for o in ops), "SLEN": len(ops)}
+    defs.update(extra or {})
+    srcs = ("parser", "writer")
+    return Query(name, "h_script.c", defines=defs, sources=srcs, unwindset=uw, unwind=max(n + 3, 10), checks=checks,
+                 timeout=timeout, mem_gb=min(0.8 + 0.16 * nloops * j, 12), unwind_assert=full,
+                 tags={"n": n, "D": D, "root": "object" if root == 1 else "array", "script": "-".join(script),
+                       "per_call_token_cap": None if full else J, "family": "H-SCRIPT", "mode": {1: "valid-doc/ref-driven", 2: "arbitrary-bytes/parser-driven", 3: "arbitrary-bytes/unconditional"}[mode]},
+                 witness=witness, arch=arch, group="h_script.p%d" % propset)
+
+
+def plan_C06(tier):
+    qs = []
+    alpha = ("GO", "GA", "N", "LO", "LA", "RAW")
+    if tier == "quick":
+        cfg = [(3, 6, None, (1, 2)), (4, 5, 5, (2,)), (4, 6, 5, (1,))]
+    else:
+        cfg = [(3, 4, None, (2,)), (3, 6, None, (1, 2)), (4, 6, None, (1, 2)), (4, 8, 5, (1, 2)), (5, 6, 5, (1, 2)), (5, 8, 5, (1, 2)),
+               (6, 7, 5, (2,))]
+    seen = set()
+    for (K, n, J, roots) in cfg:
+        for root in roots:
+            for s in gen_scripts(root, K, alpha):
+                key = (tuple(s), n, root)
+                if key in seen or not script_feasible(s, n, root):
+                    continue
+                seen.add(key)
+                qs.append(script_query(6, s, n, 2, root, J=J if len(s) > 2 else None))
+    info = {
+        "rule": "one query per (stack-consistent script, n, root): all valid documents of exactly n bytes symbolic; "
+                "every call result, type, name/value and get_depth compared with the reference cursor.",
+        "bounds": {"configs(K,n,J)": cfg, "D": 2},
+        "outside": ["documents longer than the listed n", "scripts longer than K", "D != 2",
+                    "for queries with a per-call token cap J: documents in which one call advances over more than J-1 tokens"],
+        "assumptions": ["reference cursor model/ref_cursor.h is the specification of navigation",
+                        "documents are valid per model/ref_binson.h (ref_verify == OK)"],
+    }
+    return qs, info
+
+
+WKIND = {1: "object_begin", 2: "object_end", 3: "array_begin", 4: "array_end", 5: "boolean", 6: "integer", 7: "double",
+         8: "string_with_len", 9: "bytes", 10: "name_strlen", 11: "raw"}
+
+
+def writer_query(propset, wmode, cap, k=1, wfn=None, extra=None, timeout=600, srcmax=6, witness=True, arch=None):
+    name = "writer.p%d.m%d.cap%d.k%d%s" % (propset, wmode, cap, k, (".%s" % WKIND[wfn]) if wfn else "")
+    if arch:
+        name += "." + arch
+    defs = {"CAP": cap, "KCALLS": k, "WMODE": wmode, "PROPSET": propset, "SRCMAX": srcmax}
+    if wfn:
+        defs["WFN"] = wfn
+    defs.update(extra or {})
+    return Query(name, "h_writer.c", defines=defs, sources=("parser", "writer"),
+                 unwindset={"_int_pack_size.0": 9, "strlen.0": srcmax + 2, "_advance_parsing.0": cap + 2, "_parse_integer.0": 9,
+                            "memcmp.0": cap + 2},
+                 unwind=max(cap + 3, srcmax + 12), checks="mem", timeout=timeout, mem_gb=1.5,
+                 tags={"capacity": cap, "calls": k, "family": {1: "H-WSTEP", 2: "H-WSEQ", 3: "H-WRT", 4: "H-WINIT"}[wmode],
+                       "call": WKIND.get(wfn, "nondet")}, witness=witness, arch=arch, group="h_writer.m%d" % wmode)
+
+
+RT_SHAPES = [
+    [1, 2], [1, 8, 6, 2], [1, 8, 7, 2], [1, 8, 5, 2], [1, 8, 8, 2], [1, 8, 9, 2],
+    [1, 8, 6, 8, 8, 2], [1, 8, 1, 2, 2], [1, 8, 3, 6, 4, 2], [3, 6, 5, 4], [3, 1, 2, 4], [3, 3, 4, 4],
+    [1, 8, 1, 8, 6, 2, 2], [3, 9, 8, 7, 4], [1, 8, 3, 4, 8, 6, 2],
+]
+
+
+def rt_query(shape, what, srcmax=3, timeout=1500):
+    # capacity: ample = sum of the largest encodings
+    mx = {1: 1, 2: 1, 3: 1, 4: 1, 5: 1, 6: 9, 7: 9, 8: 2 + srcmax, 9: 2 + srcmax}
+    cap = sum(mx[o] for o in shape)
+    depth = max(2, 1 + max_nest(shape))
+    extra = {"WOPS_LIST": ",".join(str(o) for o in shape), "RT_DEPTH": depth}
+    for wv in what:
+        extra[wv] = 1
+    q = writer_query(5, 3, cap, k=len(shape), extra=extra, srcmax=srcmax, timeout=timeout)
+    q.name = "writer.rt.%s.%s" % ("-".join(str(o) for o in shape), "+".join(w.replace("RT_", "").lower() for w in what))
+    q.checks = "func"
+    q.mem_gb = 4
+    q.tags.update({"shape": [WKIND[o] for o in shape], "checks_run": what})
+    return q
+
+
+def max_nest(shape):
+    d = m = 0
+    for o in shape:
+        if o in (1, 3):
+            d += 1; m = max(m, d)
+        elif o in (2, 4):
+            d -= 1
+    return m
+
+
+def plan_C04(tier):
+    qs = []
+    if tier == "quick":
+        caps_seq, K = list(range(0, 13)), 3
+        caps_step = (0, 1, 5, 12)
+    else:
+        caps_seq, K = list(range(0, 41)), 4
+        caps_step = (0, 1, 2, 3, 5, 9, 10, 12, 20)
+    for c in caps_seq:
+        qs.append(writer_query(4, 2, c, k=K))
+    if tier != "quick":
+        for c in range(0, 25):
+            qs.append(writer_query(4, 2, c, k=6))
+    for c in caps_step:
+        for fn in range(1, 12):
+            qs.append(writer_query(4, 1, c, k=1, wfn=fn))
+    info = {
+        "rule": "H-WSEQ: one query per capacity c: K write calls whose kinds and arguments (all int64, all doubles, lengths "
+                "<= 6 copied or > c never copied, <= 70000) are symbolic, destination object of exactly c bytes. "
+                "H-WSTEP: one query per (call kind, c): arbitrary writer state (counter any size_t, any error code) + one call.",
+        "bounds": {"capacities_seq": [min(caps_seq), max(caps_seq)], "K": K, "capacities_step": list(caps_step), "copied_payload_max": 6},
+        "outside": ["copied payloads longer than 6 bytes", "capacities above the listed ones (H-WSTEP covers any counter value for the listed capacities)"],
+        "assumptions": ["reference encoder model/ref_encode.h is the specification of the encoding",
+                        "source pointers are valid for the given length whenever the piece can fit"],
+    }
+    return qs, info
+
+
+def plan_C05(tier):
+    qs = []
+    # canonical encoding of every single token, all int64 / all doubles / all lengths
+    for fn in (5, 6, 7, 8, 9, 10):
+        for c in ((12,) if tier == "quick" else (5, 12, 20)):
+            qs.append(writer_query(5, 1, c, k=1, wfn=fn))
+    shapes = RT_SHAPES[:8] if tier == "quick" else RT_SHAPES
+    for s in shapes:
+        qs.append(rt_query(s, ["RT_VERIFY"]))
+        if tier != "quick" or len(s) <= 4:
+            qs.append(rt_query(s, ["RT_DECODE"]))
+    for s in (RT_SHAPES[:2] if tier == "quick" else RT_SHAPES[:6]):
+        if s[0] == 1:
+            qs.append(rt_query(s, ["RT_WVERIFY"], timeout=2400))
+    info = {
+        "rule": "H-WSTEP with the C05 assertion set: one query per scalar call kind: all int64 / all double bit patterns / all "
+                "lengths, bytes compared with the reference canonical encoder. Round trip: one query per concrete well-formed "
+                "shape with symbolic names (ascending) and values: output == reference encoding, accepted by the reference "
+                "recogniser, binson_parser_verify, binson_writer_verify, and decoded values == written values.",
+        "bounds": {"shapes": [[WKIND[o] for o in s] for s in shapes], "copied_payload_max": 3},
+        "outside": ["shapes other than the listed ones", "payloads longer than 3 bytes in round trips (6 in single-token queries)",
+                    "binson_writer_verify only on the smallest shapes (depth-10 parser)"],
+        "assumptions": ["reference encoder / recogniser are the specification"],
+    }
+    return qs, info
+
+
+PLANS = {"C04": plan_C04, "C05": plan_C05, "C06": plan_C06, "C01": plan_C01, "C02": plan_C02}
